@@ -14,9 +14,16 @@
       [21, TK, TV, nil?, [[k,v],...]]  map
       [22, T, []] / [22, T, [v]]  nil / non-nil pointer
       [20, w, []] / [20, w, [v]]  nil / non-nil interface-typed slot (w = which interface type)
-      [25, [v,...]]               struct *)
+      [25, [v,...]]               struct
+
+    SHARING: a slice, map or pointer node may carry one more trailing element, an
+    integer id > 0: the Go side builds the node once per id and uses the SAME
+    slice header / map / pointer at every occurrence of that id (the occurrences
+    carry the same text).  The text is therefore the tree UNFOLDING of the Go
+    value (a DAG); the decoder ignores the ids — size.Of is a tree sum over the
+    unfolding (Properties/C20.v, theorems C20_graph_...). *)
 From Coq Require Import ZArith List Bool String.
-From Low Require Import Lib.Val Model.Size Spec.SizeSpec.
+From Low Require Import Lib.Val Model.Size Spec.SizeSpec Model.SizeFmt Model.SizeStat Spec.SizeStatSpec Model.TypeHelper Spec.TypeHelperSpec Model.SizeGraph Spec.SizeGraphSpec.
 Import ListNotations.
 Open Scope string_scope.
 Open Scope Z_scope.
@@ -46,7 +53,7 @@ Fixpoint dec (v : val) : option value :=
         end
       else if k =? 23 then
         match rest with
-        | [_; VZ nf; VL elems] =>
+        | [_; VZ nf; VL elems] | [_; VZ nf; VL elems; VZ _] =>
             match opt_all (map dec elems) with
             | Some l => if nf =? 0 then Some (VSlice (Some l))
                         else match l with [] => Some (VSlice None) | _ => None end
@@ -62,7 +69,7 @@ Fixpoint dec (v : val) : option value :=
         end
       else if k =? 21 then
         match rest with
-        | [_; _; VZ nf; VL pairs] =>
+        | [_; _; VZ nf; VL pairs] | [_; _; VZ nf; VL pairs; VZ _] =>
             match opt_all (map (fun p => match p with
                                          | VL [a; b] => match dec a, dec b with
                                                         | Some a, Some b => Some (a, b)
@@ -78,7 +85,7 @@ Fixpoint dec (v : val) : option value :=
         end
       else if k =? 22 then
         match rest with
-        | [_; VL o] => match dec_opt dec o with Some o => Some (VPtr o) | None => None end
+        | [_; VL o] | [_; VL o; VZ _] => match dec_opt dec o with Some o => Some (VPtr o) | None => None end
         | _ => None
         end
       else if k =? 20 then
@@ -107,6 +114,261 @@ Definition dec_top (v : val) : option (option value) :=
          | Some x => if supportedb x then Some (Some x) else None
          | None => None
          end
+  end.
+
+(** ---- labelled values (the full report of Stat).
+
+    A LABEL TREE runs parallel to the value tree:  lab = [x<type text>, [kid,...]],
+    kid = [x<edge text>, lab]: one kid per slice / array element (edge empty), per
+    map entry in the order of the value text (edge = fmt.Sprintf("%s", key)), per
+    struct field (edge = field name), one under a non-nil pointer / interface
+    (edge empty), none otherwise.  harness/c20.go computes it from the BUILT Go
+    value with reflect ([Type().String()], [Type().Field(i).Name]) and fmt. *)
+Fixpoint dec_l (v : val) (lab : val) {struct v} : option lvalue :=
+  match lab with
+  | VL [tyv; VL kids] =>
+    match as_zs tyv with
+    | None => None
+    | Some ty =>
+      match v with
+      | VL (VZ k :: rest) =>
+        if k =? 24 then
+          match rest, kids with
+          | [VL bs], [] => match opt_all (map as_z bs) with Some bs => Some (LString ty bs) | None => None end
+          | _, _ => None
+          end
+        else if k =? 23 then
+          match rest with
+          | [_; VZ nf; VL elems] | [_; VZ nf; VL elems; VZ _] =>
+            match (fix go (es ks : list val) {struct es} : option (list lvalue) :=
+                     match es, ks with
+                     | [], [] => Some []
+                     | e :: es', VL [_; lb] :: ks' =>
+                         match dec_l e lb with
+                         | Some x => match go es' ks' with Some r => Some (x :: r) | None => None end
+                         | None => None
+                         end
+                     | _, _ => None
+                     end) elems kids with
+            | None => None
+            | Some l =>
+                if nf =? 0 then Some (LSlice ty (Some l))
+                else match l with [] => Some (LSlice ty None) | _ => None end
+            end
+          | _ => None
+          end
+        else if k =? 17 then
+          match rest with
+          | [_; VL elems] =>
+            match (fix go (es ks : list val) {struct es} : option (list lvalue) :=
+                     match es, ks with
+                     | [], [] => Some []
+                     | e :: es', VL [_; lb] :: ks' =>
+                         match dec_l e lb with
+                         | Some x => match go es' ks' with Some r => Some (x :: r) | None => None end
+                         | None => None
+                         end
+                     | _, _ => None
+                     end) elems kids with
+            | None => None
+            | Some l => Some (LArray ty l)
+            end
+          | _ => None
+          end
+        else if k =? 21 then
+          match rest with
+          | [_; _; VZ nf; VL pairs] | [_; _; VZ nf; VL pairs; VZ _] =>
+            match (fix go (ps ks : list val) {struct ps} : option (list (list Z * value * lvalue)) :=
+                     match ps, ks with
+                     | [], [] => Some []
+                     | VL [a; b] :: ps', VL [kt; lb] :: ks' =>
+                         match as_zs kt, dec a, dec_l b lb with
+                         | Some kt, Some a, Some x =>
+                             match go ps' ks' with Some r => Some ((kt, a, x) :: r) | None => None end
+                         | _, _, _ => None
+                         end
+                     | _, _ => None
+                     end) pairs kids with
+            | None => None
+            | Some l => if nf =? 0 then Some (LMap ty l)
+                        else match l with [] => Some (LMap ty []) | _ => None end
+            end
+          | _ => None
+          end
+        else if (k =? 22) || (k =? 20) then
+          match rest with
+          | [_; VL o] | [_; VL o; VZ _] =>
+            match o, kids with
+            | [], [] => Some (if k =? 22 then LPtr ty None else LIface ty None)
+            | [x], [VL [_; lb]] =>
+                match dec_l x lb with
+                | Some x => Some (if k =? 22 then LPtr ty (Some x) else LIface ty (Some x))
+                | None => None
+                end
+            | _, _ => None
+            end
+          | _ => None
+          end
+        else if k =? 25 then
+          match rest with
+          | [VL fs] =>
+            match (fix go (es ks : list val) {struct es} : option (list (list Z * lvalue)) :=
+                     match es, ks with
+                     | [], [] => Some []
+                     | e :: es', VL [nm; lb] :: ks' =>
+                         match as_zs nm, dec_l e lb with
+                         | Some nm, Some x => match go es' ks' with Some r => Some ((nm, x) :: r) | None => None end
+                         | _, _ => None
+                         end
+                     | _, _ => None
+                     end) fs kids with
+            | None => None
+            | Some l => Some (LStruct ty l)
+            end
+          | _ => None
+          end
+        else
+          match rest, kids with
+          | [VZ _], [] => match skind_of k with Some s => Some (LScalar ty s) | None => None end
+          | _, _ => None
+          end
+      | _ => None
+      end
+    end
+  | _ => None
+  end.
+
+(** top level; the labelled value must erase to what [dec] reads from the same text *)
+Definition dec_ltop (v lab : val) : option (option lvalue) :=
+  match v with
+  | VL [VZ 0] => Some None
+  | _ => match dec_l v lab, dec v with
+         | Some x, Some y => if supportedb y then Some (Some x) else None
+         | _, _ => None
+         end
+  end.
+
+(** options: AvgOf, and the unit as [] (AvgUnit = 0) or [k] (AvgUnit = 2^k) *)
+Definition dec_opt_stat (avg unit : val) : option sopt :=
+  match avg, unit with
+  | VZ n, VL [] => Some {| avgOf := n; avgUnit := None |}
+  | VZ n, VL [VZ k] => Some {| avgOf := n; avgUnit := Some k |}
+  | _, _ => None
+  end.
+
+Definition stat_args (a : list val) : option (option lvalue * Z * Z * sopt) :=
+  match a with
+  | [v; lab; VZ depth; VZ maxItem; avg; unit] =>
+      match dec_ltop v lab, dec_opt_stat avg unit with
+      | Some d, Some o => Some (d, depth, maxItem, o)
+      | _, _ => None
+      end
+  | _ => None
+  end.
+
+(** ---- typehelper.ToSlice on protocol values: the elements stay opaque texts *)
+Definition targ_val (v : val) : targ val :=
+  match v with
+  | VL [VZ 23; _; VZ _; VL elems] | VL [VZ 23; _; VZ _; VL elems; VZ _] => ArgSlice elems
+  | _ => ArgOther
+  end.
+(** [Index(i).Interface()]: an interface-kinded element is handed over as the interface it holds *)
+Definition box_val (e : val) : val :=
+  match e with
+  | VL [VZ 20; _; VL o] => VL [VZ 20; VZ 0; VL o]
+  | _ => VL [VZ 20; VZ 0; VL [e]]
+  end.
+Definition slots_val (rst : list (option val)) : val :=
+  VL [VZ 23; VL [VZ 20; VZ 0]; VZ 0;
+      VL (map (fun o => match o with Some b => b | None => VL [VZ 20; VZ 0; VL []] end) rst)].
+
+(** ---- values with references into a heap (size.Of/heap):  [26, T, a] is a non-nil pointer
+    (of type *T) to heap cell a; everything else as in [dec] *)
+Definition dec_opt_g (f : val -> option gvalue) (l : list val) : option (option gvalue) :=
+  match l with
+  | [] => Some None
+  | [x] => match f x with Some v => Some (Some v) | None => None end
+  | _ => None
+  end.
+
+Fixpoint dec_g (v : val) : option gvalue :=
+  match v with
+  | VL (VZ k :: rest) =>
+      if k =? 24 then
+        match rest with
+        | [VL bs] => match opt_all (map as_z bs) with Some bs => Some (GString bs) | None => None end
+        | _ => None
+        end
+      else if k =? 23 then
+        match rest with
+        | [_; VZ nf; VL elems] | [_; VZ nf; VL elems; VZ _] =>
+            match opt_all (map dec_g elems) with
+            | Some l => if nf =? 0 then Some (GSlice (Some l))
+                        else match l with [] => Some (GSlice None) | _ => None end
+            | None => None
+            end
+        | _ => None
+        end
+      else if k =? 17 then
+        match rest with
+        | [_; VL elems] =>
+            match opt_all (map dec_g elems) with Some l => Some (GArray l) | None => None end
+        | _ => None
+        end
+      else if k =? 21 then
+        match rest with
+        | [_; _; VZ nf; VL pairs] | [_; _; VZ nf; VL pairs; VZ _] =>
+            match opt_all (map (fun p => match p with
+                                         | VL [a; b] => match dec_g a, dec_g b with
+                                                        | Some a, Some b => Some (a, b)
+                                                        | _, _ => None
+                                                        end
+                                         | _ => None
+                                         end) pairs) with
+            | Some l => if nf =? 0 then Some (GMap l)
+                        else match l with [] => Some (GMap []) | _ => None end
+            | None => None
+            end
+        | _ => None
+        end
+      else if k =? 22 then
+        match rest with
+        | [_; VL o] | [_; VL o; VZ _] => match dec_opt_g dec_g o with Some o => Some (GPtr o) | None => None end
+        | _ => None
+        end
+      else if k =? 20 then
+        match rest with
+        | [_; VL o] => match dec_opt_g dec_g o with Some o => Some (GIface o) | None => None end
+        | _ => None
+        end
+      else if k =? 26 then
+        match rest with
+        | [_; VZ a] => if a <? 0 then None else Some (GRef (Z.to_nat a))
+        | _ => None
+        end
+      else if k =? 25 then
+        match rest with
+        | [VL fs] => match opt_all (map dec_g fs) with Some l => Some (GStruct l) | None => None end
+        | _ => None
+        end
+      else
+        match rest with
+        | [VZ _] => match skind_of k with Some s => Some (GScalar s) | None => None end
+        | _ => None
+        end
+  | _ => None
+  end.
+
+
+(** a heap cell: [T, value] (T: its Go type, ignored here) *)
+Definition dec_cell (c : val) : option gvalue :=
+  match c with VL [_; v] => dec_g v | _ => None end.
+
+(** an element of the variadic options: [0, AvgOf, unit] = an Opt; anything else = not an Opt *)
+Definition dec_optarg (v : val) : option sopt :=
+  match v with
+  | VL [VZ 0; avg; unit] => dec_opt_stat avg unit
+  | _ => None
   end.
 
 Definition ops_C20 : list opdef := [
@@ -148,6 +410,102 @@ Definition ops_C20 : list opdef := [
        | [v; VZ _; VZ _] =>
            match dec_top v with
            | Some d => match spec_StatFirst d with None => VL [] | Some n => VL [VZ n] end
+           | None => VBad end
+       | _ => VBad end) |}
+;
+  (* size.Stat(v, depth, maxItem, Opt{AvgOf, AvgUnit}): the whole text, on the cases where Go's random
+     map order cannot show (no listed map with two or more entries has its entries listed) *)
+  {| op_name := "size.Stat/text";
+     op_run := fun a => match stat_args a with
+       | Some (d, depth, maxItem, o) =>
+           if det_text d depth maxItem
+           then match StatText d depth maxItem o with Some t => vzs t | None => VPanic end
+           else VBad
+       | None => VBad end;
+     op_spec := fun_spec (fun a => match stat_args a with
+       | Some (d, depth, maxItem, o) => vzs (spec_text d depth maxItem o)
+       | None => VBad end) |};
+  (* the same call, the lines of the report SORTED (byte order): on the cases where every map whose
+     entries are listed is listed completely, so that only the order of the blocks is random *)
+  {| op_name := "size.Stat/sorted";
+     op_run := fun a => match stat_args a with
+       | Some (d, depth, maxItem, o) =>
+           if det_lines d depth maxItem
+           then match StatLines d depth maxItem o with Some l => vzss (sort_lines l) | None => VPanic end
+           else VBad
+       | None => VBad end;
+     op_spec := fun_spec (fun a => match stat_args a with
+       | Some (d, depth, maxItem, o) => vzss (sort_lines (spec_lines d depth maxItem o))
+       | None => VBad end) |}
+;
+  (* typehelper.ToSlice(v): the returned []interface{} written back as a value text, P for a panic *)
+  {| op_name := "typehelper.ToSlice";
+     op_run := fun a => match a with
+       | [v] => match dec_top v with
+                | Some _ => match ToSlice box_val (targ_val v) with Some rst => slots_val rst | None => VPanic end
+                | None => VBad end
+       | _ => VBad end;
+     op_spec := fun_spec (fun a => match a with
+       | [v] => match dec_top v with
+                | Some _ => match spec_ToSlice box_val (targ_val v) with Some rst => slots_val rst | None => VPanic end
+                | None => VBad end
+       | _ => VBad end) |};
+  (* size.Of(typehelper.ToSlice(v)): the composition users write to size the elements of a slice *)
+  {| op_name := "typehelper.ToSlice+size.Of";
+     op_run := fun a => match a with
+       | [v] => match dec_top v with
+                | Some d => match ToSlice box_value (targ_of d) with
+                            | Some rst => match sizeof (slots_value rst) with Some n => VZ n | None => VPanic end
+                            | None => VPanic end
+                | None => VBad end
+       | _ => VBad end;
+     op_spec := fun_spec (fun a => match a with
+       | [v] => match dec_top v with
+                | Some d => match targ_of d with
+                            | ArgSlice l => VZ (spec_ToSlice_size l)
+                            | ArgOther => VPanic end
+                | None => VBad end
+       | _ => VBad end) |}
+;
+  (* size.Of of a value that shares pointers: args = [[[T_0, cell_0], ..., [T_n-1, cell_n-1]], root]; cell a may refer
+     to cells below a only (an ordered, hence acyclic, heap).  Model: gsizeof on the heap;
+     property: the structural sum of the tree unfolding *)
+  {| op_name := "size.Of/heap";
+     op_run := fun a => match a with
+       | [VL cells; root] =>
+           match opt_all (map dec_cell cells), dec_g root with
+           | Some h, Some v =>
+               if ordered h && refs_below (List.length h) v
+               then match gsizeof h (enough_fuel h v) v with Some n => VZ n | None => VPanic end
+               else VBad
+           | _, _ => VBad end
+       | _ => VBad end;
+     op_spec := fun_spec (fun a => match a with
+       | [VL cells; root] =>
+           match opt_all (map dec_cell cells), dec_g root with
+           | Some h, Some v =>
+               match unfold h (enough_fuel h v) v with
+               | Some t => if supportedb t then VZ (spec_size t) else VBad
+               | None => VBad end
+           | _, _ => VBad end
+       | _ => VBad end) |}
+;
+  (* size.Stat(v, depth, maxItem, opts...): the variadic options; an option is [0, AvgOf, unit] (an Opt),
+     [1] (an int) or [2] (a *Opt): only the first one counts, and it must be an Opt *)
+  {| op_name := "size.Stat/opts";
+     op_run := fun a => match a with
+       | [v; lab; VZ depth; VZ maxItem; VL opts] =>
+           match dec_ltop v lab with
+           | Some d =>
+               if det_text d depth maxItem
+               then match StatOpts d depth maxItem (map dec_optarg opts) with Some t => vzs t | None => VPanic end
+               else VBad
+           | None => VBad end
+       | _ => VBad end;
+     op_spec := fun_spec (fun a => match a with
+       | [v; lab; VZ depth; VZ maxItem; VL opts] =>
+           match dec_ltop v lab with
+           | Some d => match spec_opts d depth maxItem (map dec_optarg opts) with Some t => vzs t | None => VPanic end
            | None => VBad end
        | _ => VBad end) |}
 ].
